@@ -506,3 +506,19 @@ def xcheck_run(picked, impl, model, tag, log):
     if len(vals) != len(ids) or bad:
         return False, f"the model evaluated inside Coq disagrees with the implementation's image / the extracted driver on {bad or ids}"
     return True, f"{len(ids)} cases re-evaluated inside Coq (vm_compute): " + " ".join(ids)
+
+
+# ------------------------------------------------------------------ coqchk (thorough tier)
+def coqchk(prop, log):
+    """independent re-check of Properties/<prop>.vo and everything it depends on with coqchk -o; the
+    lists of axioms, of constants relying on type-in-type / unsafe fixpoints and of inductives with
+    assumed positivity must all be empty.  -> (ok, detail)"""
+    rc, out = sh(f"timeout 3000 coqchk -o -silent -Q . DV DV.Properties.{prop}", cwd=COQ, timeout=3100)
+    log.append((f"coqchk Properties.{prop}", rc, out[-2500:]))
+    flat = " ".join(out.split())
+    want = ["* Axioms: <none>", "* Constants/Inductives relying on type-in-type: <none>",
+            "* Constants/Inductives relying on unsafe (co)fixpoints: <none>", "* Inductives whose positivity is assumed: <none>"]
+    missing = [w for w in want if w not in flat]
+    if rc != 0 or missing:
+        return False, f"coqchk rc={rc}; not reported empty: {missing}; tail: {flat[-600:]}"
+    return True, "coqchk -o: Axioms: <none>; no type-in-type, no unsafe fixpoints, no assumed positivity"
